@@ -30,6 +30,9 @@ def make_cases(tier, rng, want_expr=True, n_random=None, n_tiny=None, big=None):
     for i in range(big):
         sp = gen.rand_grammar(rng, big=True, max_alt=3, max_len=4)
         cases.append({"id": "big:%d" % i, "src": gen.render(sp), "kind": "big", "spec": sp})
+    for i in range(1 if tier == "quick" else 6):
+        sp = gen.keyword_grammar(rng, nwords=64 + 10 * i)
+        cases.append({"id": "kw:%d" % i, "src": gen.render(sp), "kind": "kw", "spec": sp})
     if want_expr:
         for i in range(30 if tier == "quick" else 300):
             sp = gen.expr_grammar(rng)
@@ -80,6 +83,19 @@ def default_inputs(rng, max_len=4, n_sent=6, cap=400):
             return []
         g = cfg.G(impl_lines)
         ins = []
+        if cid.startswith("kw:"):
+            # many-state grammars: every statement, every truncated statement, and pairs
+            stmts = [r[1] for r in g.rules[3:]]
+            for st in stmts:
+                ins.append(st)
+                for k in range(1, len(st)):
+                    ins.append(st[:k])
+                ins.append(st + st[:3])
+            for _ in range(40):
+                a, b = rng.choice(stmts), rng.choice(stmts)
+                ins.append(a + b)
+                ins.append(a + b[:rng.randint(1, len(b) - 1)])
+            return ins
         k = max_len
         while k > 0 and (len(g.terms) + 1) ** k > cap:
             k -= 1
